@@ -121,6 +121,16 @@ def run(module: str, cfg: Optional[str] = None, *, workers: int = 1, env: Option
         raw_cases = {}
         with open(logf, errors="replace") as fh:
             for line in fh:
+                if line.startswith("<< "):
+                    # TLC breaks a printed tuple that does not fit its line width over several lines (<< "VERDICT",\n   21,\n ... >>): put it together again
+                    buf = line
+                    while not buf.rstrip().endswith(">>"):
+                        nxt = fh.readline()
+                        if not nxt:
+                            break
+                        buf += nxt
+                    parts = [x.strip() for x in buf.strip()[2:-2].strip().split("\n")]
+                    line = "<<" + " ".join(parts) + ">>\n"
                 if line.startswith('<<"CASE"'):
                     m = _CASE.match(line)
                     if m:
